@@ -11,7 +11,7 @@ RULE = (
     "seeded: shape 1..6 per axis, each axis periodic / bloch(random k incl. 0 and |kL|>pi) / wall(pec,pmc,none); "
     "tiling 2-3 along each periodic axis; random per-cell eps (iso or diag), optional mu array, optional sigma_E; "
     "random complex/real initial fields; 6-20 steps compared at every step. distinct = (axis kinds, tiling, "
-    "material tier, complex); non-trivial iff fields non-zero"
+    "material tier (iso / diag / full symmetric tensor per cell), complex); non-trivial iff fields non-zero"
 )
 REQUIRED_COUNTERS = ["steps_compared"]
 ASSUMPTIONS = ["uniform grids (the statement's 'N cells')", "float64/complex128, rtol 1e-9 relative to the field maximum"]
@@ -40,7 +40,7 @@ def cases(tier, rng):
                 {
                     "shape": [int(rng.integers(1, 6)) for _ in range(3)],
                     "axes": axes,
-                    "eps_tier": ["iso", "diag"][int(rng.integers(2))],
+                    "eps_tier": ["iso", "diag", "full"][int(rng.integers(3))],
                     "mu": bool(rng.integers(2)),
                     "lossy": bool(rng.random() < 0.25),
                     "steps": int(rng.integers(6, 20)),
@@ -85,10 +85,10 @@ def _scene(sc, tiled):
             cplx = cplx or ak["phase"] != 0.0
     s["bloch"] = bloch
     s["complex"] = True if cplx else None
-    vol = {"eps": 2.0 if sc["eps_tier"] == "iso" else [2.0, 3.0, 4.0]}
+    vol = {"eps": 2.0 if sc["eps_tier"] == "iso" else ([2.0, 3.0, 4.0] if sc["eps_tier"] == "diag" else [2.0, 0.2, 0.1, 0.2, 3.0, 0.3, 0.1, 0.3, 4.0])}
     if sc["mu"]:
-        vol["mu"] = [1.5, 2.0, 2.5] if sc["eps_tier"] == "diag" else 1.5
-    if sc["lossy"]:
+        vol["mu"] = 1.5 if sc["eps_tier"] == "iso" else [1.5, 2.0, 2.5]
+    if sc["lossy"] and sc["eps_tier"] != "full":
         vol["sig_e"] = 1.0
     s["volume"] = vol
     return s, cplx
@@ -125,7 +125,19 @@ def _one(sc, r):
         return out
 
     ab, at = bb["arrays"], bt["arrays"]
-    ie = 1.0 / rng.uniform(1.0, 4.0, size=ab.inv_permittivities.shape)
+    if ab.inv_permittivities.shape[0] == 9:
+        # random symmetric positive definite tensor per cell (diagonally dominant), stored as its inverse
+        shp = ab.inv_permittivities.shape[1:]
+        d = rng.uniform(2.0, 4.0, size=(*shp, 3))
+        o = rng.uniform(-0.4, 0.4, size=(*shp, 3))
+        eps = np.zeros((*shp, 3, 3))
+        for i in range(3):
+            eps[..., i, i] = d[..., i]
+        for n_, (i, j) in enumerate(((0, 1), (0, 2), (1, 2))):
+            eps[..., i, j] = eps[..., j, i] = o[..., n_]
+        ie = np.moveaxis(np.linalg.inv(eps).reshape(*shp, 9), -1, 0)
+    else:
+        ie = 1.0 / rng.uniform(1.0, 4.0, size=ab.inv_permittivities.shape)
     ab = ab.aset("inv_permittivities", jnp.asarray(ie))
     at = at.aset("inv_permittivities", jnp.asarray(tile(ie, False)))
     if isinstance(ab.inv_permeabilities, jax.Array) and ab.inv_permeabilities.ndim > 0:
